@@ -795,3 +795,63 @@ Example move_before_loop_partial_nontrivial :
   move_before_loop_model p =
     [SAssign 0 (RVal (VObj true 0)); SLoop (HFor (IKnown 3)) [SEv 1 [1]; SEv 2 [0]] []; SEv 3 [0]].
 Proof. split; vm_compute; reflexivity. Qed.
+
+(* ------------------------------------------------------------------------------------------ *)
+(* Independence from the scheduling of processing.fix: the unconditional local rewrites may be applied at
+   any positions of the tree, in any order, any number of times. *)
+Inductive ctx (R : list stmt -> list stmt -> Prop) : list stmt -> list stmt -> Prop :=
+| ctx_base p q : R p q -> ctx R p q
+| ctx_refl p : ctx R p p
+| ctx_sym p q : ctx R p q -> ctx R q p
+| ctx_trans p q s : ctx R p q -> ctx R q s -> ctx R p s
+| ctx_app p p' q q' : ctx R p p' -> ctx R q q' -> ctx R (p ++ q) (p' ++ q')
+| ctx_if t b b' e e' : ctx R b b' -> ctx R e e' -> ctx R [SIf t b e] [SIf t b' e']
+| ctx_loop h b b' e e' : ctx R b b' -> ctx R e e' -> ctx R [SLoop h b e] [SLoop h b' e'].
+
+Lemma ctx_sound (R : list stmt -> list stmt -> Prop) :
+  (forall p q, R p q -> equiv p q) -> forall p q, ctx R p q -> equiv p q.
+Proof.
+  intros HR p q H. induction H.
+  - apply HR; assumption.
+  - apply equiv_refl.
+  - apply equiv_sym; assumption.
+  - eapply equiv_trans; eassumption.
+  - apply equiv_app; assumption.
+  - apply equiv_if; assumption.
+  - apply equiv_loop; assumption.
+Qed.
+
+Inductive local_rule : list stmt -> list stmt -> Prop :=
+| lr_pass : local_rule [SPass] []
+| lr_if_true t b e : tval t = Some true -> local_rule [SIf t b e] b
+| lr_if_false t b e : tval t = Some false -> local_rule [SIf t b e] e
+| lr_while_false t b e : tval t = Some false -> local_rule [SLoop (HWhile t) b e] e
+| lr_redundant_else t b e rest : anyb b = true -> local_rule (SIf t b e :: rest) (SIf t b [] :: e ++ rest)
+| lr_swap t b e : local_rule [SIf t b e] [SIf (negate t) e (nopass b)]
+| lr_unreachable q rest : anyb q = true -> local_rule (q ++ rest) q
+| lr_tail t B E X : local_rule [SIf t (B ++ [X]) (E ++ [X])] [SIf t B E; X]
+| lr_continue h pre t bb ee e :
+    local_rule [SLoop h (pre ++ [SIf t bb ee]) e] [SLoop h (pre ++ [SIf t (bb ++ [SContinue]) ee]) e].
+
+Lemma lbsim2_prefix pre b b' : lbsim2 b b' -> lbsim2 (pre ++ b) (pre ++ b').
+Proof.
+  intros [H1 H2]. induction pre as [|s pre IH]; [split; assumption|].
+  destruct IH as [I1 I2]. split; simpl; apply lbsim_cons; auto using equiv_refl.
+Qed.
+
+Lemma local_rule_sound p q : local_rule p q -> equiv p q.
+Proof.
+  intros H. destruct H.
+  - apply equiv_pass.
+  - apply if_true; assumption.
+  - apply if_false; assumption.
+  - apply while_false; assumption.
+  - apply redundant_else, anyb_blocks; assumption.
+  - apply swap_local.
+  - apply cut_after, anyb_blocks; assumption.
+  - apply if_tail.
+  - apply lbsim2_loop; [|apply equiv_refl]. apply lbsim2_prefix, ec_append_lbsim2.
+Qed.
+
+Theorem any_schedule_sound p q : ctx local_rule p q -> equiv p q.
+Proof. apply ctx_sound. apply local_rule_sound. Qed.
